@@ -90,6 +90,10 @@ def generate(rng, tier):
         # the process is descheduled shortly before the close: the close then runs together with the backlog
         ops.append({"t": round(max(0.0003, t_close - rng.choice([0.4, 0.1, 0.02, 0.001])), 6), "op": "stall", "h": "V",
                     "dur": rng.choice([0.03, 0.15, 0.5, 1.2])})
+    if rng.random() < 0.15:
+        # ... or right after the close was requested (start-up, goodbyes and the close itself then resume together)
+        ops.append({"t": round(t_close + rng.choice([0.0001, 0.001, 0.01, 0.13]), 6), "op": "stall", "h": "V",
+                    "dur": rng.choice([0.3, 1.05, 1.5])})
     mode = "sync" if rng.random() < 0.25 else "async"
     if mode == "async" and rng.random() < 0.2:
         # a second async_close() overlapping the first (a signal handler and a finally block, say)
@@ -363,7 +367,8 @@ def _oracle(w, drv, sc, st, probe, stats, out):
             out.add("C17.advertised-not-withdrawn", f"{r!r} was last sent with TTL {r.ttl} at {t - t0:.6f} on {sock} "
                     f"({'multicast' if mc else 'unicast'}); close was called at {st['t_call'] - t0:.6f} and returned at "
                     f"{t_ret - t0:.6f}; no later goodbye on {bad or 'any socket'}", after_call=t >= st["t_call"],
-                    rtype=r.type)
+                    rtype=r.type, mode=sc["mode"], reg_in_flight=stats["registrations_in_flight_at_close"] > 0,
+                    at_return=abs(t - t_ret) < 1e-6)
             break
     if st.get("exc2"):
         out.add("C17.second-close-raised", f"closing again raised {st['exc2']}")
